@@ -9,10 +9,31 @@ package route_rule_conf
 //@ spec basicName(t *BasicRouteRuleTree, host string, path string) string := abstract
 //@ spec basicFound(t *BasicRouteRuleTree, host string, path string) bool := abstract
 
+//@ spec wfPathTrees(v interface{}) bool := typeis(v, "pathTrees") && unbox(v, "pathTrees")[0] != nil && unbox(v, "pathTrees")[1] != nil && (forall j string :: rhas(unbox(v, "pathTrees")[0], j) ==> typeis(rget(unbox(v, "pathTrees")[0], j), "string")) && (forall j string :: rhas(unbox(v, "pathTrees")[1], j) ==> typeis(rget(unbox(v, "pathTrees")[1], j), "string"))
+//@ spec wfBasicTree(t *BasicRouteRuleTree) bool := t != nil && t.hosts[0] != nil && t.hosts[1] != nil && (forall k string :: rhas(t.hosts[0], k) ==> wfPathTrees(rget(t.hosts[0], k))) && (forall k string :: rhas(t.hosts[1], k) ==> wfPathTrees(rget(t.hosts[1], k)))
+
 //@ func (*BasicRouteRuleTree).Get
-//@   trusted lookups in the basic rule tree write nothing; the result is a function of the tree, host and path (the tree's own precedence rules are property C11)
+//@   props C11
+//@   nopanic
+//@   requires[a_loaded_tree_maps_hosts_to_path_trees_and_paths_to_cluster_names] wfBasicTree(r)
 //@   modifies nothing
-//@   ensures result0 == basicName(r, host, path) && result1 == basicFound(r, host, path)
+//@   let K := toUpper(revFqdn(host))
+//@   let H0 := r.hosts[0]
+//@   let H1 := r.hosts[1]
+//@   let rem := trimPrefixOf(K, rlp(H1, K))
+//@   let exact := rhas(H0, K)
+//@   let wild := !exact && rlpFound(H1, K) && !strContains(rem, ".")
+//@   let anyh := !exact && rlpFound(H1, K) && strContains(rem, ".") && rhas(H1, "")
+//@   let V := exact ? rget(H0, K) : (wild ? rget(H1, rlp(H1, K)) : rget(H1, ""))
+//@   let P0 := unbox(V, "pathTrees")[0]
+//@   let P1 := unbox(V, "pathTrees")[1]
+//@   let p1 := len(path) > 0 && path[len(path)-1] != 47 ? path + "/" : path
+//@   ensures[no_host_class_means_no_cluster] !exact && !wild && !anyh ==> !result1
+//@   ensures[exact_path_of_the_chosen_host_class_wins] (exact || wild || anyh) && rhas(P0, path) ==> result1 && result0 == unbox(rget(P0, path), "string")
+//@   ensures[otherwise_the_longest_path_prefix_of_the_chosen_host_class] (exact || wild || anyh) && !rhas(P0, path) && rlpFound(P1, p1) ==> result1 && result0 == unbox(rget(P1, rlp(P1, p1)), "string")
+//@   ensures[no_fallback_to_another_host_class] (exact || wild || anyh) && !rhas(P0, path) && !rlpFound(P1, p1) ==> !result1
+//@   assumes[names_the_lookup_result] result0 == basicName(r, host, path) && result1 == basicFound(r, host, path)
+//@   note basicName/basicFound only name this function's result for property C12 (they are not given a meaning there)
 
 // ---- C13: a malformed (but decodable) route table is rejected with an error, never with a crash ----
 
@@ -59,3 +80,30 @@ package route_rule_conf
 //@   nopanic index,slice,nil
 //@   requires pt != nil && pt[0] != nil && pt[1] != nil
 //@   modifies *
+
+// ---- C11: precedence inside the basic rule tree ----
+
+//@ func (*pathTrees).get
+//@   props C11
+//@   nopanic
+//@   requires pt != nil && pt[0] != nil && pt[1] != nil
+//@   requires[path_trees_hold_cluster_names] (forall k string :: rhas(pt[0], k) ==> typeis(rget(pt[0], k), "string")) && (forall k string :: rhas(pt[1], k) ==> typeis(rget(pt[1], k), "string"))
+//@   modifies nothing
+//@   let p1 := len(path) > 0 && path[len(path)-1] != 47 ? path + "/" : path
+//@   ensures[an_exact_path_rule_wins] rhas(pt[0], path) ==> result1 && result0 == unbox(rget(pt[0], path), "string")
+//@   ensures[otherwise_the_longest_path_element_prefix_rule] !rhas(pt[0], path) && rlpFound(pt[1], p1) ==> result1 && result0 == unbox(rget(pt[1], rlp(pt[1], p1)), "string")
+//@   ensures[otherwise_no_rule_of_this_host_class_matches] !rhas(pt[0], path) && !rlpFound(pt[1], p1) ==> !result1
+
+//@ func (*hostTrees).get
+//@   props C11
+//@   nopanic
+//@   requires ht != nil && ht[0] != nil && ht[1] != nil
+//@   requires[host_trees_hold_path_trees] (forall k string :: rhas(ht[0], k) ==> wfPathTrees(rget(ht[0], k))) && (forall k string :: rhas(ht[1], k) ==> wfPathTrees(rget(ht[1], k)))
+//@   modifies nothing
+//@   let K := toUpper(revFqdn(host))
+//@   let rem := trimPrefixOf(K, rlp(ht[1], K))
+//@   ensures[an_exact_host_rule_wins] rhas(ht[0], K) ==> result1 && result0 == unbox(rget(ht[0], K), "pathTrees")
+//@   ensures[otherwise_a_wildcard_host_that_leaves_a_single_label] !rhas(ht[0], K) && rlpFound(ht[1], K) && !strContains(rem, ".") ==> result1 && result0 == unbox(rget(ht[1], rlp(ht[1], K)), "pathTrees")
+//@   ensures[otherwise_the_any_host_rule] !rhas(ht[0], K) && rlpFound(ht[1], K) && strContains(rem, ".") && rhas(ht[1], "") ==> result1 && result0 == unbox(rget(ht[1], ""), "pathTrees")
+//@   ensures[a_found_host_class_holds_two_trees_of_cluster_names] result1 ==> result0[0] != nil && result0[1] != nil && (forall j string :: rhas(result0[0], j) ==> typeis(rget(result0[0], j), "string")) && (forall j string :: rhas(result0[1], j) ==> typeis(rget(result0[1], j), "string"))
+//@   ensures[otherwise_no_host_class_matches] !rhas(ht[0], K) && (!rlpFound(ht[1], K) || (strContains(rem, ".") && !rhas(ht[1], ""))) ==> !result1
